@@ -374,6 +374,23 @@ Fixpoint run (s : state) (es : list event) : state * list output :=
 
 End Model.
 
+(* ---------- RTU framing (serial, and ClientLoop over FramedReader::rtu_response) ----------
+   An RTU frame carries no transaction id: in execute_request `frame.header.tx_id` is None, the
+   comparison is skipped, and the FIRST frame delivered while a request is in flight is taken as its
+   reply (a late reply to a timed-out request is therefore taken as the reply to the NEXT request).
+   The same loop is modelled by giving every delivered frame the outstanding transaction id: the
+   label carried by the event is ignored. *)
+Definition cur_tx (s : state) : N := match ph s with PInFlight _ t _ | PWriting _ t _ => t | _ => 0 end.
+(* the first part of a frame held by the reader completes against whatever is outstanding THEN *)
+Definition retag (s : state) : state :=
+  match partial s with Some (_, k) => set_partial s (Some (cur_tx s, k)) | None => s end.
+Definition rtu_step (cfg : config) (s : state) (e : event) : state * list output :=
+  match e with
+  | EvFrame _ k => step cfg s (EvFrame (cur_tx s) k)
+  | EvTail => step cfg (retag s) EvTail
+  | _ => step cfg s e
+  end.
+
 (* TcpChannelTask::run: the listener is told Disabled before anything else *)
 Definition init (nhandles : nat) (max_timeouts : option N) (rmin rmax : N) : state :=
   {| ph := PWaitEnabled; queue := []; blocked := []; handles := nhandles; enabled := false; txid := 0;
